@@ -23,7 +23,7 @@ THREAD_ROUNDS = dict(quick=48, thorough=2000)
 ANCHORS = ['numdifftools.finite_difference:LogRule.rule',
            'numdifftools.step_generators:MinStepGenerator.step_generator_function',
            'numdifftools.core:Derivative.set_richardson_rule', 'numdifftools.core:Derivative._get_steps',
-           'numdifftools.core:Derivative._set_derivative']
+           'numdifftools.core:Derivative._derivative']
 # also watched for yield injection, but reached only if the shard's pool draws the matching class and method (no reach requirement)
 ALSO_WATCHED = ['numdifftools.finite_difference:JacobianDifferenceFunctions.increments',
                 'numdifftools.finite_difference:JacobianDifferenceFunctions._central',
@@ -274,6 +274,11 @@ def setup(ctx, mon):
 def cases(rng, tier, shard, nshards):
     pool = make_pool(rng)
     yield dict(kind='pool', pool=pool)
+    # every other configuration of the pool once as "constructed, copied (shallow / deep) before its first call, called"
+    for i_cfg in range(NPOOL):
+        if (i_cfg + shard) % 2 == 0:
+            yield dict(kind='history', ops=[['construct', i_cfg, int(rng.integers(0, 4))], ['copy_object', i_cfg, int((i_cfg // 2) % 3 == 2)],
+                                            ['call', i_cfg, 0], ['call', i_cfg, 1]])
     for i in range(BUDGET[tier] // nshards):
         ops = []
         for _ in range(int(rng.integers(4, 13))):
